@@ -21,7 +21,7 @@ from cryptodatahub.common.key import (
 from cryptodatahub.dnsrec.algorithm import DnsRrType, DnsSecAlgorithm, DnsSecDigestType
 
 from cryptoparser.common.base import NumericRangeParsableBase, OneByteEnumParsable, Serializable, TwoByteEnumParsable
-from cryptoparser.common.exception import NotEnoughData
+from cryptoparser.common.exception import NotEnoughData, TooMuchData
 from cryptoparser.common.parse import ByteOrder, ComposerBinary, ParsableBase, ParserBinary
 
 
@@ -177,6 +177,9 @@ class DnsRecordDnskey(ParsableBase, Serializable):
             public_key = cls._parse_public_key_dss(key_parser)
         else:
             raise NotImplementedError(dnssec_algorithm)
+
+        if key_parser.unparsed_length:
+            raise TooMuchData(key_parser.unparsed_length)
 
         return public_key
 
